@@ -284,3 +284,34 @@ func checkSplits(c *core.Ctx, a *elAnch, f *fn, scope ast.Node) {
 		return true
 	})
 }
+
+func init() {
+	register(&core.Rule{ID: "C10.12", Prop: "C10", MinSites: 3,
+		Desc: "the unconditional release is the owner's: elastic.RingBuffer.Done (which pools the ring whatever it still holds) is called only from the teardown paths conn.release, conn.resetBuffer and elastic.Buffer.Release; the consuming operations use done(), which pools the ring only when it is empty",
+		Run: runC10_12})
+}
+
+func runC10_12(c *core.Ctx) {
+	doneFn := c.P.Func("pkg/buffer/elastic", "RingBuffer.Done")
+	if !c.Need("RingBuffer.Done", doneFn) {
+		return
+	}
+	allowed := map[string]string{
+		"gnet.(*conn).release":        "the connection is gone: whatever its inbound ring holds is dropped on purpose",
+		"gnet.(*conn).resetBuffer":    "Discard of everything: the ring was Reset just before",
+		"elastic.(*Buffer).Release":   "teardown of the outbound buffer of a closed connection",
+		"elastic.(*RingBuffer).Reset": "",
+	}
+	allFuncs(c, func(f *fn) {
+		k := 0
+		for _, call := range callsIn(f.Decl.Body, true) {
+			if !flow.IsCall(f.Info, call, doneFn) {
+				continue
+			}
+			k++
+			why, ok := allowed[f.Name]
+			c.Check(ok, f.Name, "RingBuffer.Done() #"+itoa(k), call.Pos(), "teardown path: "+why,
+				f.Name+" releases the ring unconditionally (Done): if the operation leaves bytes in it – a writer that took only part, a partial read – those bytes go back to the pool with the ring and disappear from the stream; operations that consume use done(), which releases the ring only when it is empty")
+		}
+	})
+}
